@@ -51,9 +51,17 @@ func VerifC10_MultiplexPool() {
 		}
 		return n
 	}
+	goAway := false // the first connection was told to go away
+	oneWaySeen := false
 	steps := verif.Param("mux_steps", 3, 4)
 	for s := 0; s < steps; s++ {
-		switch verif.Choose("op", 5) {
+		switch verif.Choose("op", 6) {
+		case 5: // the upstream announces go-away on the connection
+			if c, ok := pool.activeClients[0].Load(base.codec.ProtocolName()); ok && len(host.conns) > 0 && !host.conns[0].closed && !goAway {
+				c.(*activeClientMultiplex).OnGoAway()
+				goAway = true
+				verif.Cover("go-away")
+			}
 		case 0, 1: // a new two-way / one-way request
 			twoWay := verif.Choose("two_way", 2) == 1
 			r := &reqT{twoWay: twoWay, live: true, ls: &zzLListener{}}
@@ -85,6 +93,7 @@ func VerifC10_MultiplexPool() {
 			}
 			verif.Assert(sender.AppendHeaders(ctx, req, true) == nil, "request not sent")
 			if !twoWay {
+				oneWaySeen = true
 				verif.Cover("one-way")
 			}
 		case 2: // the upstream answers the oldest two-way request in flight
@@ -118,7 +127,9 @@ func VerifC10_MultiplexPool() {
 			}
 		default: // the peer closes the connection: every request in flight is reset
 			if len(host.conns) > 0 && !host.conns[0].closed {
+				verif.MustFinish(200000, "the close event of the connection is never handled to the end (the handling goroutine blocks for ever; the requests still in flight are never reset)")
 				host.conns[0].Close(api.NoFlush, api.RemoteClose)
+				verif.Finished()
 				for _, r := range reqs {
 					if r.live && r.twoWay {
 						verif.Assert(r.ls.resets == 1, "a request in flight on a connection the peer closed must be reset exactly once")
@@ -127,6 +138,12 @@ func VerifC10_MultiplexPool() {
 				}
 				verif.Cover("peer-closed")
 			}
+		}
+		if goAway && !oneWaySeen && inFlight() == 0 {
+			// (a go-away connection is not handed out any more: once its last request in flight has
+			// ended it must be closed, or it stays open, counted and unused for ever)
+			verif.Assert(host.conns[0].closed, "a connection that announced go-away is still open after its last request in flight ended")
+			verif.Cover("go-away connection closed")
 		}
 		n := int64(inFlight())
 		verif.Assert(host.hs.UpstreamRequestActive.Count() == n, "UpstreamRequestActive differs from the number of two-way requests in flight")
